@@ -77,13 +77,21 @@ Definition to_outcome {A : Type} (r : res (Z * A)) : outcome A :=
 
 Definition fix_zero (s : float) : float := if feqb s 0 then 1%float else s.
 
-(* ScalePath<int64_t,double>(path, scale_x, scale_y, error_code): zero-scale test only, NO range test *)
+(* ScalePath<int64_t,double>(path, scale_x, scale_y, error_code): zero-scale test (non-fatal without exceptions: the
+   scale becomes 1), then -- since the fix "ScalePath checks the range like ScalePaths" -- the range test of ScalePaths
+   on the bounds of this one path with the (repaired) scales: range_error_i and an empty path *)
+Definition scale_path_ranged (exc : bool) (sx sy : float) (p : fpath) (ec : Z) : res (option path * Z) :=
+  if negb (range_ok sx sy [p]) then
+    let ec' := Z.lor ec range_error_i in
+    bind (do_error exc range_error_i ec') (fun _ => Val (Some [], ec'))
+  else Val (scale_path sx sy p, ec).
+
 Definition scale_path_E (exc : bool) (sx sy : float) (p : fpath) (ec : Z) : res (option path * Z) :=
   if feqb sx 0 || feqb sy 0 then
     let ec' := Z.lor ec scale_error_i in
     bind (do_error exc scale_error_i ec')
-         (fun _ => Val (scale_path (fix_zero sx) (fix_zero sy) p, ec'))
-  else Val (scale_path sx sy p, ec).
+         (fun _ => scale_path_ranged exc (fix_zero sx) (fix_zero sy) p ec')
+  else scale_path_ranged exc sx sy p ec.
 
 (* ScalePath<double,int64_t> *)
 Definition descale_path_E (exc : bool) (sx sy : float) (p : path) (ec : Z) : res (fpath * Z) :=
@@ -92,6 +100,10 @@ Definition descale_path_E (exc : bool) (sx sy : float) (p : path) (ec : Z) : res
     bind (do_error exc scale_error_i ec')
          (fun _ => Val (descale_path (fix_zero sx) (fix_zero sy) p, ec'))
   else Val (descale_path sx sy p, ec).
+
+(* every single path passes ScalePath's own range test (implied by ScalePaths' test on the common bounds for a positive
+   finite scale and NaN-free input; kept as a separate predicate because the code does evaluate both tests) *)
+Definition each_range_ok (sx sy : float) (ps : fpaths) : bool := forallb (fun p => range_ok sx sy [p]) ps.
 
 Fixpoint scale_each (exc : bool) (sx sy : float) (ps : fpaths) (ec : Z) : res (option paths * Z) :=
   match ps with
@@ -162,23 +174,29 @@ Section Wrappers.
   (* ---------- clipper.h: BooleanOp(PathsD) and shorthands ---------- *)
 
   (* BooleanOp(ct, fr, subjects, clips, precision) -> PathsD, and the PolyTreeD overload (tree cleared first):
-     the function's own error_code only ever holds the precision error; the ClipperD's code is never read *)
+     the function's own error_code only ever holds the precision error (and is not visible to the caller); since the fix
+     "BooleanOp(PathsD) looks at ClipperD::ErrorCode()" the empty result / cleared tree is returned when an Add* call
+     left an error in the ClipperD:  if (clipper.ErrorCode()) return result; *)
+  Definition after_adds (ec : Z) (r : Z * value) : res (Z * value) :=
+    let '(ecc, v) := r in if negb (ecc =? 0) then Val (ec, VEmpty) else Val (ec, v).
+
   Definition booleanopD (precision : Z) (S C : fpaths) : res (Z * value) :=
     bind (check_precision_range exc precision 0) (fun '(p', ec) =>
     if negb (ec =? 0) then Val (ec, VEmpty)
-    else bind (clipperD_run p' true false true S [] C) (fun '(_, v) => Val (ec, v))).
+    else bind (clipperD_run p' true false true S [] C) (after_adds ec)).
 
   (* Union(subjects, fillrule, precision) *)
   Definition union1D (precision : Z) (S : fpaths) : res (Z * value) :=
     bind (check_precision_range exc precision 0) (fun '(p', ec) =>
     if negb (ec =? 0) then Val (ec, VEmpty)
-    else bind (clipperD_run p' true false false S [] []) (fun '(_, v) => Val (ec, v))).
+    else bind (clipperD_run p' true false false S [] []) (after_adds ec)).
 
   (* ---------- InflatePaths(PathsD) ---------- *)
   Definition inflateD (precision : Z) (ps : fpaths) (delta arc_tolerance : float) : res (Z * value) :=
     bind (check_precision_range exc precision 0) (fun '(p', ec) =>
-    if feqb delta 0 then Val (ec, VInput)                         (* if (!delta) return paths;  -- before the code is looked at *)
-    else if negb (ec =? 0) then Val (ec, VEmpty)
+    (* since the fix "InflatePaths(PathsD) no longer returns its input for delta == 0" there is no shortcut here: the
+       64-bit InflatePaths is called with delta * scale (and itself returns its -- scaled -- input when that is 0) *)
+    if negb (ec =? 0) then Val (ec, VEmpty)
     else
       let scale := pow10 p' in
       let arc := (arc_tolerance * scale)%float in
@@ -190,6 +208,12 @@ Section Wrappers.
   Definition rect_is_empty (r : frect) : bool :=
     let '(l, t, rr, b) := r in fleb b t || fleb rr l.
 
+  (* the test added by the fix "RectClip(PathsD) checks the range of the rectangle":
+     rect.left * scale < min_coord || rect.right * scale > max_coord || rect.top * scale < min_coord || rect.bottom * scale > max_coord *)
+  Definition rect_range_ok (scale : float) (r : frect) : bool :=
+    let '(l, t, rr, b) := r in
+    negb (fltb (l * scale) min_coord || fltb max_coord (rr * scale) || fltb (t * scale) min_coord || fltb max_coord (b * scale)).
+
   Definition rectclipD (precision : Z) (r : frect) (ps : fpaths) : res (Z * value) :=
     if rect_is_empty r || (match ps with [] => true | _ => false end) then Val (0, VEmpty)
     else
@@ -197,6 +221,9 @@ Section Wrappers.
     if negb (ec =? 0) then Val (ec, VEmpty)
     else
       let scale := pow10 p' in
+      if negb (rect_range_ok scale r) then
+        bind (do_error exc range_error_i range_error_i) (fun _ => Val (range_error_i, VEmpty))
+      else
       match scale_rect scale r with
       | None => Val (ec, VUndef)
       | Some r64 =>
@@ -205,16 +232,21 @@ Section Wrappers.
           else Val (ec1, undef_or ps' (fun q => VCall (mkCall [q] (Some r64) [] (inv_of scale)))))
       end).
 
-  (* ---------- MinkowskiSum / MinkowskiDiff (PathD): no precision check, error code never read ---------- *)
+  (* ---------- MinkowskiSum / MinkowskiDiff (PathD): since the fix "Minkowski*(PathD) check precision and error code"
+     the same prologue as TrimCollinear(PathD) ---------- *)
   Definition minkowskiD (precision : Z) (pattern pth : fpath) : res (Z * value) :=
-    let scale := pow10 precision in
-    bind (scale_path_E exc scale scale pattern 0) (fun '(pat', ec1) =>
-    bind (scale_path_E exc scale scale pth ec1) (fun '(pth', ec2) =>
-    Val (ec2,
-         match pat', pth' with
-         | Some a, Some b => VCall (mkCall [[a]; [b]] None [] (inv_of scale))
-         | _, _ => VUndef
-         end))).
+    bind (check_precision_range exc precision 0) (fun '(p', ec) =>
+    if negb (ec =? 0) then Val (ec, VEmpty)
+    else
+      let scale := pow10 p' in
+      bind (scale_path_E exc scale scale pattern ec) (fun '(pat', ec1) =>
+      bind (scale_path_E exc scale scale pth ec1) (fun '(pth', ec2) =>
+      if negb (ec2 =? 0) then Val (ec2, VEmpty)
+      else Val (ec2,
+           match pat', pth' with
+           | Some a, Some b => VCall (mkCall [[a]; [b]] None [] (inv_of scale))
+           | _, _ => VUndef
+           end)))).
 
   (* ---------- TrimCollinear(PathD) ---------- *)
   Definition trimcollinearD (precision : Z) (pth : fpath) : res (Z * value) :=
@@ -308,6 +340,8 @@ Example cpr_throw : check_precision_range true 9 0 = Throw 1 1. Proof. reflexivi
 Example cpr_clamp : check_precision_range false (-9) 0 = Val (-8, 1). Proof. reflexivity. Qed.
 Example sp_zero_on : scale_path_E true 0 1 [(1%float, 1%float)] 0 = Throw 2 2. Proof. reflexivity. Qed.
 Example sp_zero_off : scale_path_E false 0 2 [(1%float, 1%float)] 0 = Val (Some [(1, 2)], 2). Proof. reflexivity. Qed.
+Example sp_range_on : scale_path_E true 1 1 [(0x1p+62%float, 1%float)] 0 = Throw 64 64. Proof. reflexivity. Qed.
+Example sp_range_off : scale_path_E false 1 1 [(0x1p+62%float, 1%float)] 0 = Val (Some [], 64). Proof. reflexivity. Qed.
 Example mk_odd_on : make_path true [1; 2; 3] = Throw 4 0. Proof. reflexivity. Qed.
 Example mk_odd_off : make_path false [1; 2; 3] = Val [(1, 2)]. Proof. reflexivity. Qed.
 Example mk_even : make_path true [1; 2; 3; 4] = Val [(1, 2); (3, 4)]. Proof. reflexivity. Qed.
